@@ -9,6 +9,7 @@ use crate::core::runner::{guarded, Batch, Property, Report, Tier};
 use crate::core::tape::{TapeGuard, TapeSpec, Word};
 use serde::{Deserialize, Serialize};
 use serde_json::{json, Value};
+use smartcore::api::{Predictor, UnsupervisedEstimator};
 use smartcore::cluster::kmeans::{KMeans, KMeansParameters};
 use smartcore::linalg::naive::dense_matrix::DenseMatrix;
 use smartcore::math::num::RealNumber;
@@ -316,7 +317,12 @@ impl C12 {
                     1 => KMeansParameters::default().with_max_iter(case.max_iter).with_k(case.k),
                     _ => KMeansParameters { k: case.k, max_iter: case.max_iter },
                 };
-                KMeans::<T>::fit(&x, params)
+                // ctor / 3: the inherent functions or the estimator traits of smartcore::api
+                if case.ctor / 3 == 1 {
+                    <KMeans<T> as UnsupervisedEstimator<DenseMatrix<T>, KMeansParameters>>::fit(&x, params)
+                } else {
+                    KMeans::<T>::fit(&x, params)
+                }
             })
         };
         let log = guard.log();
@@ -417,7 +423,7 @@ impl C12 {
                         // also the stale centroid of a cluster that ended up without rows)
                         q.extend(cents.iter().cloned());
                         let qm: DenseMatrix<T> = to_t_matrix(&q);
-                        match guarded(|| model.predict(&qm)) {
+                        match guarded(|| if case.ctor / 3 == 1 { Predictor::<DenseMatrix<T>, Vec<T>>::predict(&model, &qm) } else { model.predict(&qm) }) {
                             Err(msg) => rep.fail("panic", "predict", format!("{}: predict panicked: {}", ctx, msg)),
                             Ok(Err(e)) => rep.fail("predict-error", "predict", format!("{}: predict failed: {}", ctx, e)),
                             Ok(Ok(lab)) => {
@@ -749,7 +755,7 @@ fn gen_case(batch: &str, _index: u64, seed: u64) -> Case {
             queries: vec![],
             tape: TapeSpec::prng(seed).with_prefix(words),
             kind: format!("tiny#{}/forced-initialisation {:?}", di, targets),
-            ctor: (_index % 3) as u8,
+            ctor: (_index % 6) as u8,
         };
     }
     let mut r = Xo::fork(seed, "workload");
@@ -890,7 +896,7 @@ fn gen_case(batch: &str, _index: u64, seed: u64) -> Case {
         }
         _ => panic!("unknown batch {}", batch),
     }
-    let ctor = pr.below(3) as u8;
+    let ctor = pr.below(6) as u8;
     Case { mode: "fit".into(), data, k, max_iter, f32m, centroids: vec![], queries, tape, kind, ctor }
 }
 
